@@ -115,16 +115,25 @@ Qed.
 (* ---------------------------------------------------------------------------------- *)
 (* evaluating the generic reader on header ++ payload *)
 
+Lemma f_read_hb_eval_tail hs mx getlen h b tail :
+  lenN h = hs -> hs <= getlen h -> getlen h <= mx -> lenN b = getlen h - hs ->
+  f_read_hb hs mx getlen (h ++ b ++ tail) = (Ok (h, b), tail, [lenN b], [hs; lenN b]).
+Proof.
+  intros Lh H1 H2 Lb. unfold f_read_hb. rewrite !lenN_app.
+  destruct (N.ltb_spec (lenN h + (lenN b + lenN tail)) hs) as [X|_]; [lia|].
+  rewrite <- Lh, takeN_app_exact, dropN_app_exact. rewrite Lh.
+  destruct (N.ltb_spec mx (getlen h)) as [X|_]; [lia|].
+  destruct (N.ltb_spec (getlen h) hs) as [X|_]; [lia|]. cbn [orb].
+  rewrite <- Lb. rewrite lenN_app.
+  destruct (N.ltb_spec (lenN b + lenN tail) (lenN b)) as [X|_]; [lia|].
+  rewrite takeN_app_exact, dropN_app_exact. reflexivity.
+Qed.
+
 Lemma f_read_hb_eval hs mx getlen h b :
   lenN h = hs -> hs <= getlen h -> getlen h <= mx -> lenN b = getlen h - hs ->
   f_read_hb hs mx getlen (h ++ b) = (Ok (h, b), [], [lenN b], [hs; lenN b]).
 Proof.
-  intros Lh H1 H2 Lb. unfold f_read_hb. rewrite lenN_app.
-  destruct (N.ltb_spec (lenN h + lenN b) hs) as [X|_]; [lia|].
-  rewrite <- Lh, takeN_app_exact, dropN_app_exact. rewrite Lh.
-  destruct (N.ltb_spec mx (getlen h)) as [X|_]; [lia|].
-  destruct (N.ltb_spec (getlen h) hs) as [X|_]; [lia|]. cbn [orb].
-  rewrite <- Lb. rewrite N.ltb_irrefl. rewrite takeN_all, dropN_all by lia. reflexivity.
+  intros. rewrite <- (app_nil_r b) at 1. apply f_read_hb_eval_tail; assumption.
 Qed.
 
 Lemma firstn_exact {A} (a b : list A) n : length a = n -> firstn n (a ++ b) = a.
@@ -216,6 +225,96 @@ Proof.
   rewrite app_assoc in Gf.
   rewrite f_read_hb_eval in Gf; try (rewrite G; lia); [|rewrite lenN_app; unfold hs2, codec_V2HeaderSize; lia].
   cbn [lift_unmarshal] in Gf. injection Gf as G1 _ _ _. rewrite G1.
+  unfold unmarshal_v2. rewrite lenN_app, Lk', L4'.
+  destruct (N.ltb_spec (16 + 4) hs2) as [X|_]; [unfold hs2, codec_V2HeaderSize in X; lia|].
+  unfold calc_checksum_v2. cbn [app].
+  rewrite firstn_exact by (apply length_of_lenN; exact Lk').
+  rewrite skipn_exact by (apply length_of_lenN; exact Lk').
+  destruct (N.eqb_spec (crc32 (hk' ++ b')) (get32 c4')) as [X|_]; [contradiction|]. reflexivity.
+Qed.
+
+Theorem crc_flip_tail_v1 dec unzip hd frame p0 i s p1 tail :
+  wf_bytes frame -> accepted (read_packet_v1 dec unzip hd [frame] p0) ->
+  16 <= i -> i < 8 * lenN frame -> concat s = flip_bit i frame ++ tail ->
+  r_out (read_packet_v1 dec unzip hd s p1) = Err EChecksum
+  /\ concat (r_rest (read_packet_v1 dec unzip hd s p1)) = tail.
+Proof.
+  intros W [[q Hq] Hrest] Hi1 Hi2 Hs.
+  pose proof (read_packet_v1_flat dec unzip hd [frame] p0) as F. cbv zeta in F.
+  cbn [concat] in F. rewrite app_nil_r in F. rewrite Hq, Hrest in F.
+  unfold f_packet_v1, f_hb_v1 in F.
+  pose proof (f_read_hb_bounded hs1 max1 get16 hs1_le_max1 frame) as B.
+  destruct (f_read_hb hs1 max1 get16 frame) as [[[o rest] al] rd] eqn:E.
+  cbn [lift_unmarshal] in F. injection F as F1 F2 F3 F4. subst rest.
+  destruct o as [[h b]|e|]; try discriminate.
+  destruct B as (_ & _ & _ & B). destruct (B h b eq_refl) as (Lh & Lsum & [R1 R2] & Hd).
+  rewrite app_nil_r in Hd. clear B.
+  (* the checksum held *)
+  symmetry in F1. unfold unmarshal_v1 in F1. rewrite Lh, N.ltb_irrefl in F1.
+  destruct (calc_checksum_v1 h b =? get32 (skipn 10 h)) eqn:Hc; cbn [negb] in F1; [|discriminate].
+  apply N.eqb_eq in Hc. unfold calc_checksum_v1 in Hc.
+  assert (Lh' : length h = 14%nat) by (apply length_of_lenN; exact Lh).
+  set (hk := firstn 10 h) in *. set (c4 := skipn 10 h) in *.
+  assert (Eh : h = hk ++ c4) by (symmetry; apply firstn_skipn).
+  assert (Lk : lenN hk = 10) by (unfold lenN, hk; rewrite firstn_length; lia).
+  assert (L4 : lenN c4 = 4) by (unfold lenN, c4; rewrite skipn_length; lia).
+  rewrite Eh, <- app_assoc in Hd.
+  destruct (frame_flip 10 hk c4 b i Lk L4) as (hk' & c4' & b' & Ef & Lk' & L4' & Lb' & Hne & Hpre);
+    try (rewrite <- Hd; assumption); try assumption.
+  (* the flipped frame: same length field *)
+  assert (G : get16 (hk' ++ c4') = get16 h).
+  { rewrite <- (get16_takeN 2 (hk' ++ c4')) by lia. rewrite takeN_app_le by lia.
+    rewrite Hpre by lia. rewrite <- (takeN_app_le 2 hk c4) by lia. rewrite <- Eh.
+    apply get16_takeN. lia. }
+  pose proof (read_packet_v1_flat dec unzip hd s p1) as Gf. cbv zeta in Gf.
+  rewrite Hs, Hd, Ef in Gf. unfold f_packet_v1, f_hb_v1 in Gf.
+  rewrite <- !app_assoc in Gf. rewrite (app_assoc hk' c4') in Gf.
+  rewrite f_read_hb_eval_tail in Gf; try (rewrite G; lia); [|rewrite lenN_app; unfold hs1, codec_V1HeaderSize; lia].
+  cbn [lift_unmarshal] in Gf. injection Gf as G1 G2 _ _. split; [|exact G2]. rewrite G1.
+  unfold unmarshal_v1. rewrite lenN_app, Lk', L4'.
+  destruct (N.ltb_spec (10 + 4) hs1) as [X|_]; [unfold hs1, codec_V1HeaderSize in X; lia|].
+  unfold calc_checksum_v1.
+  rewrite firstn_exact by (apply length_of_lenN; exact Lk').
+  rewrite skipn_exact by (apply length_of_lenN; exact Lk').
+  destruct (N.eqb_spec (crc32 (hk' ++ b')) (get32 c4')) as [X|_]; [contradiction|]. reflexivity.
+Qed.
+
+Theorem crc_flip_tail_v2 dec unzip hd frame p0 i s p1 tail :
+  wf_bytes frame -> accepted (read_packet_v2 dec unzip hd [frame] p0) ->
+  24 <= i -> i < 8 * lenN frame -> concat s = flip_bit i frame ++ tail ->
+  r_out (read_packet_v2 dec unzip hd s p1) = Err EChecksum
+  /\ concat (r_rest (read_packet_v2 dec unzip hd s p1)) = tail.
+Proof.
+  intros W [[q Hq] Hrest] Hi1 Hi2 Hs.
+  pose proof (read_packet_v2_flat dec unzip hd [frame] p0) as F. cbv zeta in F.
+  cbn [concat] in F. rewrite app_nil_r in F. rewrite Hq, Hrest in F.
+  unfold f_packet_v2, f_hb_v2 in F.
+  pose proof (f_read_hb_bounded hs2 max2 get24 hs2_le_max2 frame) as B.
+  destruct (f_read_hb hs2 max2 get24 frame) as [[[o rest] al] rd] eqn:E.
+  cbn [lift_unmarshal] in F. injection F as F1 F2 F3 F4. subst rest.
+  destruct o as [[h b]|e|]; try discriminate.
+  destruct B as (_ & _ & _ & B). destruct (B h b eq_refl) as (Lh & Lsum & [R1 R2] & Hd).
+  rewrite app_nil_r in Hd. clear B.
+  symmetry in F1. unfold unmarshal_v2 in F1. rewrite Lh, N.ltb_irrefl in F1.
+  destruct (calc_checksum_v2 h [] b =? get32 (skipn 16 h)) eqn:Hc; cbn [negb] in F1; [|discriminate].
+  apply N.eqb_eq in Hc. unfold calc_checksum_v2 in Hc. cbn [app] in Hc.
+  assert (Lh' : length h = 20%nat) by (apply length_of_lenN; exact Lh).
+  set (hk := firstn 16 h) in *. set (c4 := skipn 16 h) in *.
+  assert (Eh : h = hk ++ c4) by (symmetry; apply firstn_skipn).
+  assert (Lk : lenN hk = 16) by (unfold lenN, hk; rewrite firstn_length; lia).
+  assert (L4 : lenN c4 = 4) by (unfold lenN, c4; rewrite skipn_length; lia).
+  rewrite Eh, <- app_assoc in Hd.
+  destruct (frame_flip 16 hk c4 b i Lk L4) as (hk' & c4' & b' & Ef & Lk' & L4' & Lb' & Hne & Hpre);
+    try (rewrite <- Hd; assumption); try assumption.
+  assert (G : get24 (hk' ++ c4') = get24 h).
+  { rewrite <- (get24_takeN 3 (hk' ++ c4')) by lia. rewrite takeN_app_le by lia.
+    rewrite Hpre by lia. rewrite <- (takeN_app_le 3 hk c4) by lia. rewrite <- Eh.
+    apply get24_takeN. lia. }
+  pose proof (read_packet_v2_flat dec unzip hd s p1) as Gf. cbv zeta in Gf.
+  rewrite Hs, Hd, Ef in Gf. unfold f_packet_v2, f_hb_v2 in Gf.
+  rewrite <- !app_assoc in Gf. rewrite (app_assoc hk' c4') in Gf.
+  rewrite f_read_hb_eval_tail in Gf; try (rewrite G; lia); [|rewrite lenN_app; unfold hs2, codec_V2HeaderSize; lia].
+  cbn [lift_unmarshal] in Gf. injection Gf as G1 G2 _ _. split; [|exact G2]. rewrite G1.
   unfold unmarshal_v2. rewrite lenN_app, Lk', L4'.
   destruct (N.ltb_spec (16 + 4) hs2) as [X|_]; [unfold hs2, codec_V2HeaderSize in X; lia|].
   unfold calc_checksum_v2. cbn [app].
